@@ -18,32 +18,32 @@ D = {
  "C07-A": ("C07", "same change as C06-A", "a JWK member containing a byte outside the table range"),
  "C07-B": ("C07", "jwk_process_one returns NULL for a keys entry that is not a JSON object", "a keys array containing a number/string/null/array entry"),
  "C08-A": ("C08", "set_ec_pub_key rejects coordinates longer than degree/8 octets (rounds down for P-521)", "every P-521 key (66-octet coordinates)"),
- "C08-B": ("C08", "crv is copied to item->curve in jwk_process_values for every kty", "an RSA or oct JWK that carries a stray crv member"),
- "C09-A": ("C09", "RSA key size taken from the byte length of the modulus member", "an RSA JWK whose n has leading zero octets / non-multiple-of-8 size"),
- "C09-B": ("C09", "_verify_sha_hmac calls sign_sha_hmac directly, bypassing the key-length check in jwt_sign", "an HMAC key shorter than the hash on the verify side"),
- "C10-A": ("C10", "jwt_builder_time_offset: offset 0 no longer disables nbf/exp", "time_offset(claim, 0)"),
- "C10-B": ("C10", "replace flag hoisted into the declaration, wiped by jwt_set_SET_INT", "a builder claim named iat/nbf/exp together with the enabled library claim"),
- "C11-A": ("C11", "jwt_base64uri_decode: the reject of len % 4 == 1 becomes dead code (z > 3)", "base64url text whose length is 1 modulo 4 (partially decoded instead of rejected)"),
- "C11-B": ("C11", "base64_decode masks the table index instead of range-checking it", "bytes >= 0x80 alias valid alphabet characters"),
- "C12-A": ("C12", "OpenSSL ECDSA verify: '!=' became '>' in the r||s length check", "a too-short r||s signature"),
- "C12-B": ("C12", "a failed jwt_set_crypto_ops() resets the provider to the default", "an unknown provider name while GnuTLS is selected"),
- "C13-A": ("C13", "verify() stores the callback's key selection in the checker", "a callback that selects a key, followed by another verify"),
- "C13-B": ("C13", "jwt_copy_error only copies when the source carries an error", "a failed call followed by a successful one"),
- "C13-C": ("C13", "generate() stores the callback's key selection in the builder (setkey instead of __setkey_check)", "a builder callback selecting a key"),
- "C14-A": ("C14", "jwt_builder_generate copies the error state back only when encoding failed", "a failed generate followed by a successful one on the same builder: the stale error stays set"),
- "C14-B": ("C14", "array payload rejected without flag or message", "a token whose payload decodes to a JSON array"),
- "C15-A": ("C15", "jwt_set_json: jwt_obj_check (which deletes on replace) moved in front of json_loads", "a replace-set of an existing name with malformed / scalar / empty JSON text: refused, but the old member is already gone"),
- "C15-B": ("C15", "whole-object replace uses json_object_update_recursive", "stored member and incoming member are both JSON objects: the result is their union"),
- "C16-A": ("C16", "jwks_item_free_bad returns jwks_error_any()", "a set whose own error flag is set"),
- "C16-B": ("C16", "jwks_find_bykid compares only strlen(kid) bytes (prefix match)", "two kids where one is a prefix of the other"),
- "C17-A": ("C17", "*_new calls *_free on the half-built object and then returns it", "an allocation failure of one of the two JSON containers"),
- "C17-B": ("C17", "jwt_ec_d2i releases the ECDSA_SIG twice on the allocation-failure path", "jwt_malloc failing in jwt_ec_d2i"),
+ "C08-B": ("C08", "crv is copied to item->curve in jwk_process_values for every kty (de-duplication of the EC / OKP importers)", "an RSA or oct JWK that carries a stray crv member"),
+ "C08-C": ("C08", "set_ec_pub_key refuses x and y of different octet length", "an EC JWK written with minimal-length integers where exactly one coordinate has a leading zero octet"),
+ "C09-A": ("C09", "key size compared in octets rounded UP ((bits + 7) / 8) in __check_hmac / __check_key_bits", "an RSA modulus of 2041..2047 bits"),
+ "C09-B": ("C09", "_verify_sha_hmac calls sign_sha_hmac directly, bypassing __check_hmac in jwt_sign", "an HS* token verified with an oct key shorter than the hash"),
+ "C10-A": ("C10", "jwt_builder_generate runs jwt_head_setup before AND after the callback", "a keyed builder whose callback downgrades to alg none (typ JWT left behind) or sets its own typ without replace"),
+ "C10-B": ("C10", "time claims written through a helper taking the offset as int", "an nbf / exp offset above INT_MAX seconds"),
+ "C11-A": ("C11", "base64_decode drops the lower half of the range check in front of the table lookup", "a byte >= 0x80 (negative char) in a segment or JWK member: out-of-bounds table read, foreign byte accepted"),
+ "C11-B": ("C11", "jwt_base64uri_decode rewritten to decode in 256-character chunks; a failing later chunk is taken for padding", "a text longer than 256 characters whose first foreign byte is at offset >= 256 (partially decoded)"),
+ "C12-A": ("C12", "a failed jwt_set_crypto_ops(_t) falls back to the first compiled-in provider", "an unknown provider name / id while GnuTLS is selected"),
+ "C12-B": ("C12", "GnuTLS verify caches the imported public key by jwk_item_t address (thread-local, never invalidated)", "key rotation: verify, jwks_free, load another key that lands on the same address, verify"),
+ "C13-A": ("C13", "jwt_checker_verify validates the callback's key/alg with jwt_checker_setkey (which stores them) instead of __setkey_check", "a keyless checker whose callback selects a key for one token and leaves the config alone for the next"),
+ "C13-B": ("C13", "jwt_builder_generate: callback block ends in 'if (__cmd->error) return NULL' (stale flag)", "a builder with a callback, a failed generate whose error was not cleared, then a generate that should succeed"),
+ "C14-A": ("C14", "jwt_checker_verify only resets the flag on success (message not cleared)", "a failure, then a success on the same checker without error_clear: ret 0, flag 0, stale message"),
+ "C14-B": ("C14", "jwt_get_int returns JWT_VALUE_ERR_TYPE without storing it in the value (getter de-duplication)", "an INT get of a member that exists with another type, by a caller that reads value.error"),
+ "C15-A": ("C15", "jwt_obj_check (which deletes on replace) runs before the new value is validated", "replace-set of an existing name with malformed / scalar JSON text or a NULL string: INVALID, but the old member is gone"),
+ "C15-B": ("C15", "jwt_get_int range-checks against INT_MAX / INT_MIN", "a stored integer beyond 32 bits (exp after 2038): get INT answers TYPE"),
+ "C16-A": ("C16", "jwks_item_get caches the last (item, index) and resumes from it; removals do not adjust the index", "get(i), free(j < i), get(k >= i)"),
+ "C16-B": ("C16", "items are linked into the set at allocation (jwks_item_new); the json_deep_copy failure path frees the item without unlinking", "an allocation failure at json_deep_copy while loading a key: dangling node, later double free"),
+ "C17-A": ("C17", "verify snapshots only exp/nbf/iss/sub/aud around the callback and ignores json_object_set_new failures", "a checker with a callback, an expired token, and the allocation that copies exp failing: accepted"),
+ "C17-B": ("C17", "shared setter helper decrefs the value again after json_object_set_new failed (jansson already dropped it)", "an allocation failure inside jansson's hashtable insert: double decref"),
  "C18-A": ("C18", "OpenSSL HMAC result taken from libcrypto's static buffer (md = NULL)", "two threads computing HS* MACs at the same time"),
- "C18-B": ("C18", "jwks_find_bykid moves the hit to the front of the shared keyring", "two threads looking up kids in one keyring"),
- "C19-A": ("C19", "only the registered claims are snapshotted around the callback", "a callback that changes a claim the checker compares but the snapshot omits, or adds claims"),
- "C19-B": ("C19", "same idea as C02-B (post-callback admission skipped)", "a callback that changes only config->alg"),
- "C20-A": ("C20", "jwt-verify reads stdin with getline() and chops the last character", "a last token without trailing newline"),
- "C20-B": ("C20", "__setkey_check enforces key_ops (sign / verify)", "a private key converted by key2jwk (key_ops: [sign]) given to jwt-verify"),
+ "C18-B": ("C18", "GnuTLS verify with a private JWK memoises the derived public key in unsynchronised process-wide state", "two threads verifying with two different private JWKs under GnuTLS"),
+ "C19-A": ("C19", "only exp/nbf/iss/sub/aud are saved around the callback and put back with json_object_update", "a token lacking iss/sub/aud, a checker requiring it, a callback that adds it"),
+ "C19-B": ("C19", "jwt_*_setkey refuses use=enc keys, but the post-callback __setkey_check does not", "a use=enc key selected inside a callback"),
+ "C20-A": ("C20", "jwt-verify reads stdin with getline() and chops the last character unconditionally", "a last token without trailing newline"),
+ "C20-B": ("C20", "set_one_bn rejects members with a leading zero octet", "an EC private key whose fixed-width d starts with 0x00 (key2jwk output the library then refuses)"),
 }
 NOTES = {
  "C02-A": "The C02 check is silent by design: with no pinned algorithm (config alg none) the pinning clause is not involved; the change is caught under C01 and C03.",
